@@ -2,7 +2,7 @@
   Entry points: mirrors src/model_checking.rs (plain / extended, single / multiple, dirty / sanitised,
   unsafe_ex) and src/postprocessing/sanitizing.rs on the explicit-state denotation.
 -/
-import HctlModel.Eval
+import HctlModel.EvalPure
 import HctlModel.Lexer
 import HctlModel.Parser
 import HctlModel.Rename
@@ -101,6 +101,14 @@ def extendedDirty (U : CSet) (ctxSets : List (Name × CSet)) (fs : List (List Ch
     match evalAll E (Ops.steadyOf E U) U trees ctx with
     | .error (.panic s) => .panic s
     | .ok rs => .ok rs
+
+/-- the same entry points through the cache-free evaluator `evalPure` (what C01/C02 are proved about) -/
+def pureDirty (ext : Bool) (U : CSet) (ctxSets : List (Name × CSet)) (fs : List (List Char)) : Outcome (List CSet) :=
+  match parseAll E K ext ctxSets fs with
+  | .error e => .userError e
+  | .ok (trees, props, doms) =>
+    .ok (trees.map (fun t =>
+      Eval.evalPure E (Ops.steadyOf E U) (fun n => props.lookup n) (fun n => doms.lookup n) t U))
 
 /-- `model_check_formula_unsafe_ex`: self-loops are ignored (steady set = ∅) -/
 def unsafeEx (U : CSet) (f : List Char) : Outcome CSet :=
